@@ -657,7 +657,7 @@ pub fn c14_reload(cx: &mut Ctx) {
                     cx.v("C14", "changed_pool_not_applied", "C14/valid/changed_servers_not_listed", done_seq, "SHOW DATABASES after the reload does not list the new server of db2".into());
                 }
             }
-            "add_pool_server_down" | "change_general" => {}
+            "add_pool_server_down" | "change_general" | "swap_roles" => {}
             _ => {
                 if !same {
                     let diff: Vec<&Vec<String>> = a.symmetric_difference(b).collect();
@@ -686,7 +686,7 @@ pub fn c14_reload(cx: &mut Ctx) {
     }
     // ---- connections of the unchanged pool survive the reload ----
     for c in &h.backend_conns {
-        if !c.host.starts_with("pg-db-") || c.kind != "session" {
+        if !c.host.starts_with("pg-db-") || c.kind != "session" || (valid && variant == "swap_roles") {
             continue;
         }
         if let Some(cs) = c.closed_seq {
@@ -698,6 +698,7 @@ pub fn c14_reload(cx: &mut Ctx) {
     // ---- clients ----
     let db3_client = cx.param_u64("db3_client", 0) as u32;
     let db2_late = cx.param_u64("db2_late_client", 0) as u32;
+    let db_role_client = cx.param_u64("db_role_client", 0) as u32;
     for c in h.clients.values() {
         if !is_data_client(c) {
             continue;
@@ -712,9 +713,14 @@ pub fn c14_reload(cx: &mut Ctx) {
                 continue;
             }
             let mut idle = true;
+            let mut asked_role = String::new();
             for s in &c.steps {
                 if s.op != "send" && s.op != "copyin" {
                     continue;
+                }
+                let text = String::from_utf8_lossy(&s.sent).to_string();
+                if let Some(i) = text.find("SET SERVER ROLE TO '") {
+                    asked_role = text[i + 20..].split('\'').next().unwrap_or("").to_string();
                 }
                 let failed = !step_ok(s) || pooler_error(&s.msgs).is_some();
                 if failed {
@@ -739,6 +745,19 @@ pub fn c14_reload(cx: &mut Ctx) {
                     }
                     if s.done_seq < begin_seq && hosts.iter().any(|x| x == "pg-db2-alt:5432") {
                         cx.v("C14", "new_definition_too_early", "C14/valid/new_servers_used_before_reload", s.done_seq, format!("client {} step {} ran on pg-db2-alt before any reload was requested", c.id, s.idx));
+                    }
+                }
+                // the roles of pool db as the configuration in force defines them
+                if c.id == db_role_client && !s.tags.is_empty() && c.connect_seq > done_seq {
+                    let swapped = valid && variant == "swap_roles";
+                    let want = match (asked_role.as_str(), swapped) {
+                        ("primary", false) | ("replica", true) => "pg-db-p:5432",
+                        _ => "pg-db-r:5432",
+                    };
+                    if hosts.iter().any(|x| x != want) {
+                        cx.v("C14", "roles_not_in_effect", &format!("C14/{}/{}/role_{}_served_by_wrong_server_after_reload", class, variant_class(&variant), asked_role), s.done_seq, format!("client {} asked pool db for role {} after the reload ({}), step {} ran on {:?}; the configuration in force names {}", c.id, asked_role, variant, s.idx, hosts, want));
+                    } else if !hosts.is_empty() {
+                        cx.probe("c14_roles_after_reload_checked");
                     }
                 }
                 if s.start_seq < begin_seq && s.done_seq > done_seq {
